@@ -720,6 +720,35 @@ func conclude(prop, tier string, seed int64, t0 time.Time, loadS float64, result
 				staged[dst] = p
 			}
 			res, err := runNative(dir, ov, harnessNames[dir], stage)
+			// a harness that hangs natively (deadlock watchdog) ends its process: run the vectors that have no
+			// result yet in a fresh one
+			for round := 0; err == nil && round < 8; round++ {
+				var missing []string
+				for dst := range staged {
+					if _, ok := res[dst]; !ok {
+						missing = append(missing, dst)
+					}
+				}
+				if len(missing) == 0 {
+					break
+				}
+				stage2, _ := os.MkdirTemp("", "vcheck-stage-")
+				back := map[string]string{}
+				for i, dst := range missing {
+					b, _ := os.ReadFile(dst)
+					d2 := filepath.Join(stage2, fmt.Sprintf("w%05d.json", i))
+					os.WriteFile(d2, b, 0644)
+					back[d2] = dst
+				}
+				res2, err2 := runNative(dir, ov, harnessNames[dir], stage2)
+				os.RemoveAll(stage2)
+				if err2 != nil || len(res2) == 0 {
+					break
+				}
+				for d2, r := range res2 {
+					res[back[d2]] = r
+				}
+			}
 			if err != nil {
 				inconcl = append(inconcl, "native replay ("+dir+"): "+firstLine(err.Error()))
 				fmt.Fprintf(os.Stderr, "native replay failed: %v\n", err)
@@ -909,6 +938,9 @@ func conclude(prop, tier string, seed int64, t0 time.Time, loadS float64, result
 
 // normLabel drops the model-dependent suffix of byte-comparison labels.
 func normLabel(l string) string {
+	if strings.HasPrefix(l, "deadlock:") {
+		return "deadlock" // the native twin of a deadlock is the replay watchdog
+	}
 	if i := strings.Index(l, ": byte "); i >= 0 && strings.HasSuffix(l, " differs") {
 		return l[:i]
 	}
